@@ -6,5 +6,6 @@ CONSTANTS
   Progs <- MCProgs
   Full = TRUE
   HModes = {"chain", "default"}
+CONSTRAINT Emit
 INVARIANTS InvCompleteIsWhole InvOrder InvFailStop InvNothingPastViolation InvDecode
 CHECK_DEADLOCK FALSE
